@@ -684,6 +684,12 @@ def r8_parameters_applied_in_given_order(ctx):
     for q, pname in ((f"{M}:create_new_processor", None), ("pyxel.pipelines.processor:Processor.replace", None)):
         f = ctx.func(q)
         sets = [c for c in calls_in(f.node) if isinstance(c.func, ast.Attribute) and c.func.attr == "set"]
+        if not sets:
+            # delegation: the given mapping is handed unchanged to the sibling that applies it (held to this rule too)
+            dele = [c for c in calls_in(f.node) if isinstance(c.func, ast.Attribute) and c.func.attr == "replace" and any(getattr(x, "qual", "") == "pyxel.pipelines.processor:Processor.replace" for x in ctx.R.resolve_call(f, c))]
+            if dele and all(dotted(expand(f, arg_or_kw(c, 0, "changes"))) in f.params for c in dele if arg_or_kw(c, 0, "changes") is not None):
+                ctx.ok(f.qual + "#order", "hands the given mapping unchanged to Processor.replace", where=f, node=dele[0])
+                continue
         lps = [enclosing_loop(c) for c in sets]
         ok = bool(sets) and all(isinstance(l, ast.For) for l in lps)
         why = "parameters are not applied in a loop over the given mapping"
